@@ -2,6 +2,7 @@ package checks
 
 import (
 	"fmt"
+	"os"
 	"strings"
 	"time"
 
@@ -13,6 +14,7 @@ type pureProg struct {
 	name  string
 	files map[string]string // relative path -> source (markers allowed)
 	main  string
+	dir   string // directory name below the base (default: name); two programs with the same dir model an edit in place
 }
 
 func c14Pool() []pureProg {
@@ -22,12 +24,17 @@ func c14Pool() []pureProg {
 			"switch x {\ncase 1:\n\tprint(\"one\")\ndefault:\n\tprint(\"other\")\n}\nfor k, v := range s {\n\tprint(k, v)\n}\nfor x > 100 {\n\tx--\n}\nt := \"ab\" + itoa(x)\nt += \"c\"\nprint(t[0], t[1:2], len(t), t == \"q\")\nvar u bool\nu = !u && (x >= y || x != y)\n" +
 			"write(\"f.txt\", t)\nwrite(\"f.txt\", t, true)\nprint(exists(\"f.txt\"), read(\"f.txt\"), u)\nin := input(\"p \")\n@ls(\"-l\")\no, e, c := @ls(in) | @grep(\"x\")\nprint(o, e, c)\n" +
 			"func swap(a int, b int) (int, int) {\n\ta, b = b, a\n\treturn a, b\n}\nx, y = swap(x, y)\np, q := swap(y, x)\nprint(p, q)\nif x == 12345 {\n\tpanic(\"boom\")\n}\n"}},
-		{name: "functions", main: "main.tsh", files: map[string]string{"main.tsh": "func a(p int) int {\n\treturn p * " + m(0) + "\n}\nfunc b(p int) (int, int) {\n\treturn a(p), a(p + 1)\n}\nfunc unused() {\n\tprint(1)\n}\nq, r := b(" + m(1) + ")\nprint(q, r)\n"}},
 		{name: "helpers", main: "main.tsh", files: map[string]string{"main.tsh": "a := []int{" + m(0) + "}\na[2] = 5\nb := []int{}\nn := copy(b, a)\ns := \"hello\"\nprint(n, len(a), s[1:3], s[0])\nfunc unused() int {\n\treturn 1\n}\nfunc a2(p int) int {\n\treturn p\n}\nprint(a2(" + m(1) + "))\n"}},
 		{name: "same-names", main: "main.tsh", files: map[string]string{"main.tsh": "func a(p int) int {\n\treturn p + 1\n}\nfunc unused() int {\n\treturn a(1)\n}\nfunc a2(p int) int {\n\treturn p\n}\nprint(unused(), " + m(0) + ")\n"}},
 		{name: "two-imports", main: "main.tsh", files: map[string]string{
 			"main.tsh":  "import (\n\th \"lib/h.tsh\"\n\tk \"lib/k.tsh\"\n)\nprint(h.Hello(" + m(0) + "), k.Twice(" + m(1) + "))\n",
 			"lib/h.tsh": "func helper(a int) int {\n\treturn a + 1\n}\nfunc Hello(a int) int {\n\treturn helper(a)\n}\nfunc Other() int {\n\treturn 3\n}\nprint(\"lib h loaded\", helper(1))\n",
+			"lib/k.tsh": "func Twice(a int) int {\n\treturn a * 2\n}\nfunc Thrice(a int) int {\n\treturn a * 3\n}\n",
+		}},
+		// the same tree as two-imports after an edit of one library in place (same paths, other bytes)
+		{name: "two-imports-edited", dir: "two-imports", main: "main.tsh", files: map[string]string{
+			"main.tsh":  "import (\n\th \"lib/h.tsh\"\n\tk \"lib/k.tsh\"\n)\nprint(h.Hello(" + m(0) + "), k.Twice(" + m(1) + "))\n",
+			"lib/h.tsh": "func helper(a int) int {\n\treturn a + 100\n}\nfunc Hello(a int) int {\n\treturn helper(a) - 1\n}\nprint(\"lib h edited\", helper(2))\n",
 			"lib/k.tsh": "func Twice(a int) int {\n\treturn a * 2\n}\nfunc Thrice(a int) int {\n\treturn a * 3\n}\n",
 		}},
 		{name: "std-and-local", main: "main.tsh", files: map[string]string{
@@ -79,10 +86,14 @@ func CheckC14(r *Run) int {
 	}
 	targets := []string{"bash", "batch"}
 	mount := func(c *gosym.Ctx, dir string, p pureProg) string {
-		for f, src := range p.files {
-			c.FS.AddFile(dir+"/"+p.name+"/"+f, gosym.Conc(src))
+		sub := p.name
+		if p.dir != "" {
+			sub = p.dir
 		}
-		return dir + "/" + p.name + "/" + p.main
+		for f, src := range p.files {
+			c.FS.AddFile(dir+"/"+sub+"/"+f, gosym.Conc(src))
+		}
+		return dir + "/" + sub + "/" + p.main
 	}
 	var bads []pureOutcome
 	okPaths := 0
@@ -148,6 +159,7 @@ func CheckC14(r *Run) int {
 		c.MapPerm = nil
 		B := c.B
 		for i, cl := range hist {
+			c.ResetPackageState() // the reference call runs as in a fresh process
 			path := mount(c, "/canon", pool[cl.p])
 			var want res
 			gp := c.Try(func() {
@@ -213,8 +225,16 @@ func CheckC14(r *Run) int {
 			reqs = append(reqs, DrvReq{Op: "history", Files: files, Dir: dir, Calls: []DrvCall{{p.main, "bash"}, {p.main, "batch"}, {p.main, "bash"}, {p.main, "batch"}}})
 		}
 		var outs [][]DrvRes
-		for rep := 0; rep < 2; rep++ { // two fresh processes (different map seeds)
-			res, err := nat.RunDrv(reqs, 30*time.Second)
+		// fresh processes (different map seeds) under different environments: search path with another bash first,
+		// no search path at all, other home directory, locale and time zone
+		fake := nat.Dir + "/fakebin"
+		os.MkdirAll(fake, 0o777)
+		os.WriteFile(fake+"/bash", []byte("#!/bin/sh\nexit 0\n"), 0o777)
+		os.WriteFile(fake+"/cmd", []byte("#!/bin/sh\nexit 0\n"), 0o777)
+		envs := [][]string{nil, {"PATH=" + fake + ":/usr/local/bin:/usr/bin:/bin", "HOME=/nonexistent", "LANG=tr_TR.UTF-8", "LC_ALL=tr_TR.UTF-8", "TZ=Asia/Tokyo", "USER=other", "SHELL=/bin/sh", "TMPDIR=" + nat.Dir},
+			{"PATH=", "HOME=/", "LANG=C"}}
+		for rep := 0; rep < len(envs); rep++ {
+			res, err := nat.RunDrvEnv(reqs, 30*time.Second, envs[rep])
 			if err != nil {
 				fmt.Println("native history run failed:", err)
 				continue
@@ -230,7 +250,7 @@ func CheckC14(r *Run) int {
 			}
 			for i := range o {
 				if o[i].Script != outs[0][i%2].Script || o[i].HasErr != outs[0][i%2].HasErr {
-					bads = append(bads, pureOutcome{Kind: "bad", What: "native: repeated / relocated / fresh-process run of program " + p.name + " returned different text", History: []string{p.name}})
+					bads = append(bads, pureOutcome{Kind: "bad", What: "native: repeated / relocated / fresh-process / other-environment run of program " + p.name + " returned different text", History: []string{p.name}})
 				}
 			}
 		}
